@@ -171,6 +171,8 @@ Definition sk_run_mp : list ev :=
    Call "pool_enter";
    LoopB;
    Call "submit";
+   Rd "total_jobs";
+   Wr "total_jobs";
    LoopE;
    Call "info_start";
    Call "results_start";
@@ -178,6 +180,9 @@ Definition sk_run_mp : list ev :=
    Call "as_completed";
    LoopB;
    Call "future_result";
+   Call "stats_update";
+   Rd "jobs_completed";
+   Wr "jobs_completed";
    LoopE;
    Handler "concurrent.futures.process.BrokenProcessPool";
    RaiseE "FileSearchException";
@@ -189,6 +194,9 @@ Definition sk_run_mp : list ev :=
    LoopE;
    Call "results_stop";
    Call "info_stop";
+   Rd "stats_results";
+   Rd "stats_results";
+   Rd "stats_results";
    Call "purge";
    Call "kill_workers";
    Call "pool_exit";
